@@ -1,13 +1,18 @@
 package subscriber
 
 import (
+	"sync"
+
 	"github.com/emirpasic/gods/maps/treemap"
 	"github.com/emirpasic/gods/utils"
 )
 
+// BlockCache is written by the subscriber's fetch loop and read by the feeder loop: the tree map is not
+// safe for concurrent use, so every access takes the lock (a pointer: the methods have value receivers)
 type BlockCache struct {
 	data *treemap.Map
 	size int
+	mu   *sync.RWMutex
 }
 
 type BlockData struct {
@@ -19,10 +24,14 @@ func NewBlockCache(size int) *BlockCache {
 	return &BlockCache{
 		data: treemap.NewWith(utils.UInt64Comparator),
 		size: size,
+		mu:   &sync.RWMutex{},
 	}
 }
 
 func (c BlockCache) PutBlockData(hash string, number int64, timestamp uint64) {
+	c.mu.Lock()
+	defer c.mu.Unlock()
+
 	c.data.Put(timestamp, BlockData{
 		Hash:   hash,
 		Number: number,
@@ -35,6 +44,9 @@ func (c BlockCache) PutBlockData(hash string, number int64, timestamp uint64) {
 }
 
 func (c BlockCache) GetOldestBlock(timetsamp uint64) (string, int64) {
+	c.mu.RLock()
+	defer c.mu.RUnlock()
+
 	key, value := c.data.Ceiling(timetsamp)
 	if key == nil {
 		return "", 0
